@@ -959,6 +959,10 @@ func TestVerifC19Exit(t *testing.T) {
 			pl.proto = "tcp"
 		}
 		pl.extra = vC19GenExtra(r, pol)
+		if (len(pl.remote) == 4 || len(pl.remote) == 16) && r.Intn(12) == 0 {
+			// client_networks names this very client by its bare host address: refused by ecs.Build, the block is invalid
+			pl.b.nets = append(append([]string(nil), pl.b.nets...), pl.remote.String())
+		}
 		pl.order = r.Perm(3)[:1+r.Intn(3)]
 		for range pl.order {
 			pl.codes = append(pl.codes, []int{0, 0, 0, 1, 1, 2, 3, 4, 5}[r.Intn(9)])
